@@ -122,7 +122,7 @@ def run(tier):
     cov["states"] = total_hist
     cov["transitions"] = total_hist * 1
     cov["traces_validated_against_impl"] = total_hist if discharged == len(conds) else 0
-    cov["samples"] = [{"first_action": list(acts[i]), "verdict": results[c.cid][0]} for i, c in enumerate(conds)][:6]
+    cov["samples"] = [{"first_action": list(acts[i]), "verdict": results[c.cid][0]} for i, c in enumerate(conds[: len(acts)])][:6]
     cov["obligations"] = len(conds)
     cov["discharged"] = discharged
     cov["inconclusive"] = inconclusive
